@@ -76,6 +76,29 @@ def run(ctx, tier):
                           first_result=want[:300], replayed_result=got[:300], preceded_by="common.%s(%r)" % (hn, a[0]),
                           monitor="replay", case=None)
     ctx.hit("replay_after_helper_call", nint)
+    # phase 1c: each call preceded by a few calls taken from the workloads of ALL properties (another decoder's early
+    # return or exception path may leave a module-level setting behind)
+    cpath = os.environ.get("PMV_CORPUS")
+    corp = []
+    if cpath:
+        from . import corpus
+        corp = corpus.load(cpath)
+    ctx.notes["replay_corpus_calls"] = len(corp)
+    if corp:
+        nx = 0
+        for i in order[:2500]:
+            fn, a, k, want = rec[i]
+            for _ in range(rng.choice((1, 2, 3))):
+                cf, ca, ck = corp[rng.randrange(len(corp))]
+                probe.call(cf, *_copy(ca), **_copy(ck))
+            got = repr(probe.call(fn, *_copy(a), **_copy(k)))
+            nx += 1
+            ctx.ev()
+            if got != want:
+                ctx.violation("result-depends-on-call-history:" + _name(fn).split(".")[-1], function=_name(fn), args=repr(a)[:300],
+                              first_result=want[:300], replayed_result=got[:300], preceded_by="calls of other decoders (corpus)",
+                              monitor="replay", case=None)
+        ctx.hit("replay_after_foreign_calls", nx)
     # phase 2: concurrent replay
     secs = float(os.environ.get("PMV_THREADS_SECONDS", "1.5" if tier == "quick" else "15"))
     nthreads = 4
@@ -125,9 +148,60 @@ def run(ctx, tier):
     ctx.ev(sum(counts))
     ctx.hit("replay_concurrent_calls", sum(counts))
     ctx.notes["replay_threads"] = nthreads
+    _cold(ctx, tier, rec, rng)
     for fn, a, want, got in bad[:3]:
         ctx.violation("result-differs-under-concurrent-calls:" + _name(fn).split(".")[-1], function=_name(fn), args=repr(a)[:300],
                       alone=want[:300], concurrent=got[:300], threads=nthreads, monitor="replay", case=None)
+
+
+def _cold(ctx, tier, rec, rng):
+    """phase 3: first calls of a fresh process made by 8 threads at once (see pmv/coldstart.py)"""
+    import json
+    import pickle
+    import subprocess
+    import tempfile
+    from . import corpus, core
+    idx = corpus._index()
+    ser = []
+    for fn, a, k, want in rec:
+        where = idx.get(id(fn))
+        if where is None and hasattr(fn, "__wrapped__"):
+            where = idx.get(id(fn.__wrapped__))
+        if where:
+            ser.append((where[0], where[1], a, k, want))
+    if not ser:
+        return
+    rng.shuffle(ser)
+    ser = ser[:400]
+    runs = int(os.environ.get("PMV_COLD_RUNS", "2" if tier == "quick" else "24"))
+    fd, path = tempfile.mkstemp(prefix="pmv-cold-", suffix=".pkl")
+    try:
+        with os.fdopen(fd, "wb") as f:
+            pickle.dump(ser, f)
+        env = dict(os.environ)
+        env["PYTHONPATH"] = os.pathsep.join([os.path.join(core.REPO, "src"), core.VERIF])
+        env.pop("PMV_C_SO", None)
+        n = 0
+        for j in range(runs):
+            try:
+                p = subprocess.run([sys.executable, "-m", "pmv.coldstart", path, str(ctx.shard * 31 + j * 7 + ctx.seed), "8"],
+                                   capture_output=True, text=True, timeout=120, env=env, cwd=core.VERIF)
+                out = json.loads(p.stdout.strip().splitlines()[-1]) if p.stdout.strip() else None
+            except Exception:
+                out = None
+            if out is None:
+                ctx.hit("replay_cold_start_failed_runs")
+                continue
+            n += 1
+            for w in out[:2]:
+                ctx.violation("result-differs-in-first-concurrent-calls-of-a-process:" + w["function"].split(".")[-1], monitor="replay",
+                              case=None, **w)
+        ctx.hit("replay_cold_start_processes", n)
+    finally:
+        try:
+            os.remove(path)
+        except OSError:
+            pass
 
 
 def _copy(x):
